@@ -48,7 +48,7 @@ ASSUMPTIONS = [
     'receivers are the classes of the package (walk of __subclasses__); user-defined subclasses are not generated',
 ]
 MIN_DISTINCT = {'quick': 1000, 'thorough': 3000}
-CASE_TIMEOUT = 300
+CASE_TIMEOUT = 1200  # watchdog only (machine shared with other checks); an observation gets a quarter of it, twice
 
 REPS = {'quick': 1, 'thorough': 2}
 
@@ -100,6 +100,13 @@ def warmup():
 
         # BIOGEME creates class-level properties on first construction: do it once, before any snapshot
         fx.World(0).biogeme()
+        # no progress-bar monitor thread: the process image that is forked must be single-threaded
+        try:
+            import tqdm
+
+            tqdm.tqdm.monitor_interval = 0
+        except ImportError:
+            pass
 
 
 # ---------------------------------------------------------------------------
@@ -230,6 +237,8 @@ def _obs(rec, call, subdir, codes):
     from ..oracle import c20_observe as ob
 
     r = ob.observe(call, subdir, codes, CASE_TIMEOUT / 4)
+    if r.get('retried_after_watchdog'):
+        rec.c('observations_repeated_after_watchdog')
     if r.get('retries_after_native_crash'):
         rec.c('engine_native_crash_retries', r['retries_after_native_crash'])
     return r
